@@ -30,6 +30,7 @@ RULE = ('one run = one scenario drawn from the workload generators of the '
 REAL = REAL_SERVER + REAL_CLIENT
 ASSUMPTIONS = ['both traces are schedule-independent: ops run to quiescence, '
                'fifo thread policy, no pauses', 'E1', 'E2', 'E3']
+HASHSEED_DEPENDENT = True   # connect(namespaces=None) iterates over a set
 SHRINK_LISTS = []
 SUBS = ['c03', 'c04', 'c05', 'c06', 'c11', 'c12', 'c16', 'c09', 'c08',
         'c02', 'c07', 'c15', 'c19']
